@@ -178,7 +178,9 @@ mod kani_tcp {
             let d = sdiff(data_nxt, la) + fin;          // rcv_nxt - last_ack
             let adv = ((s.remote_last_win as usize) << s.remote_win_shift) as i64;
             if adv > cap as i64 { return false; }       // a window is never advertised larger than the buffer
-            if d < 0 || d > adv + fin { return false; } // nothing accepted beyond the advertised edge (a FIN takes one number)
+            // nothing accepted beyond the advertised edge (a FIN takes one number; right after the peer's SYN was consumed
+            // RCV.NXT is one past the last ACK sent while nothing is buffered yet)
+            if d < 0 || (d > adv + fin && !(d == 1 && len == 0 && asm_total == 0 && !s.rx_fin_received)) { return false; }
             if sdiff(la, base) + adv > e + fin { return false; }   // advertised edge <= max_edge (a FIN takes one number)
         }
         let off = sdiff(q, base);
@@ -344,4 +346,660 @@ mod kani_tcp {
     #[kani::proof] #[kani::unwind(12)] fn c17_process_p1() { process_step(C17, 1) }
     #[kani::proof] #[kani::unwind(12)] fn c17_process_p2() { process_step(C17, 2) }
     #[kani::proof] #[kani::unwind(12)] fn c17_process_p3() { process_step(C17, 3) }
+
+    // =====================================================================================================
+    // sender-side invariant J_tx with pointwise ghost (q, b) "the application's byte for sequence number q is b"
+    // =====================================================================================================
+    fn syn_state(st: State) -> bool { matches!(st, State::SynSent | State::SynReceived) }
+    /// sequence number of tx_buffer[0]
+    fn tx_una(s: &Socket) -> TcpSeqNumber { sadd(s.local_seq_no, syn_state(s.state) as i64) }
+    fn tx_end(s: &Socket) -> TcpSeqNumber { sadd(tx_una(s), s.tx_buffer.len() as i64) }
+
+    fn j_tx(s: &Socket, q: TcpSeqNumber, b: u8) -> bool {
+        let len = s.tx_buffer.len() as i64;
+        let fl = sdiff(s.remote_last_seq, s.local_seq_no);
+        let finst = fin_sent_state(s.state) as i64;
+        let syn = syn_state(s.state) as i64;
+        if fl < 0 || fl > len + syn + finst { return false; }
+        if syn == 1 && len != 0 { return false; }           // nothing can be queued before the connection is open
+        if matches!(s.state, State::FinWait2 | State::TimeWait) && (len != 0 || fl != 0) { return false; } // our FIN was acknowledged
+        if s.remote_mss < MIN_REMOTE_MSS { return false; }
+        let off = sdiff(q, tx_una(s));
+        if off >= 0 && off < len {
+            if s.tx_buffer.get_allocated(off as usize, 1)[0] != b { return false; }
+        }
+        true
+    }
+    /// T': sequence space in flight is covered by a running timer (the inductive form of C02's finite-deadline clause)
+    fn t_prime(s: &Socket) -> bool {
+        let in_flight = s.remote_last_seq != s.local_seq_no;
+        if !synchronized(s.state) && s.state != State::SynSent { return true; }
+        if s.tuple.is_none() { return true; }
+        !in_flight || s.pending_fast_retransmit || matches!(s.timer, Timer::Retransmit { .. } | Timer::FastRetransmit | Timer::Close { .. })
+    }
+    fn state_consistent(s: &Socket) -> bool {
+        s.rx_fin_received == fin_seen_state(s.state)
+            && (s.state != State::TimeWait || matches!(s.timer, Timer::Close { .. }))
+    }
+
+    #[cfg(kani_dbg)]
+    fn dump_tx(tag: &str, s: &Socket, now: Instant) {
+        eprintln!("--- {tag}: state={:?} una={} local_seq_no={} remote_last_seq={} tx.len={} remote_win_len={} remote_mss={} pending_fast_rtx={} timer={:?} now={:?} nagle={}",
+            s.state, tx_una(s), s.local_seq_no, s.remote_last_seq, s.tx_buffer.len(), s.remote_win_len, s.remote_mss, s.pending_fast_retransmit, s.timer, now, s.nagle);
+        eprintln!("    rx: remote_seq_no={} rx.len={} fin={} last_ack={:?} last_win={} ack_delay_timer={:?} remote_last_ts={:?} timeout={:?} keep_alive={:?}", s.remote_seq_no, s.rx_buffer.len(), s.rx_fin_received, s.remote_last_ack, s.remote_last_win, s.ack_delay_timer, s.remote_last_ts, s.timeout, s.keep_alive);
+    }
+    #[cfg(not(kani_dbg))]
+    fn dump_tx(_tag: &str, _s: &Socket, _now: Instant) {}
+    #[cfg(kani_dbg)]
+    fn dump_seg(r: &TcpRepr) { eprintln!("    emit: ctl={:?} seq={} ack={:?} len={} win={} payload={:?}", r.control, r.seq_number, r.ack_number, r.payload.len(), r.window_len, r.payload); }
+    #[cfg(not(kani_dbg))]
+    fn dump_seg(_r: &TcpRepr) {}
+
+    /// symbolic socket in a state with a 4-tuple, satisfying J_rx, J_tx, T' and state consistency
+    fn any_connected<'a>(rx: &'a mut [u8], tx: &'a mut [u8], q: TcpSeqNumber, b: u8) -> (Socket<'a>, TcpSeqNumber, TcpSeqNumber) {
+        let mut s = any_socket(rx, tx);
+        kani::assume(synchronized(s.state)); // tag: pre
+        kani::assume(state_consistent(&s)); // tag: pre
+        kani::assume(j_tx(&s, q, b)); // tag: pre
+        let max_edge = any_seq(); let peer_end = any_seq();
+        kani::assume(j_rx(&mut s, any_seq(), 0, max_edge, peer_end)); // tag: pre
+        (s, max_edge, peer_end)
+    }
+
+    // =====================================================================================================
+    // C05: contract of `dispatch` on every emitted segment (checked inside the emit callback of the real dispatch)
+    // =====================================================================================================
+    #[derive(Clone, Copy, PartialEq)]
+    enum TxClause { Data, Window, Mss, Order, Fin, WinField, AckNo }
+
+    fn dispatch_step(clauses: &'static [TxClause], with_tprime: bool) {
+        let mut rx = [0u8; RXCAP];
+        let mut tx = [0u8; TXCAP];
+        if TXCAP <= 64 { let txc: [u8; TXCAP] = kani::any(); tx.copy_from_slice(&txc); }
+        let q = any_seq();
+        let b: u8 = kani::any();
+        let (mut s, _me, _pe) = any_connected(&mut rx, &mut tx, q, b);
+        if with_tprime { kani::assume(t_prime(&s)); } // tag: pre
+        let mtu: usize = kani::any();
+        kani::assume(mtu >= 576 && mtu <= 65535); // tag: range
+        let mut cx = Context::kani_ctx(any_instant(), mtu, kani::any(), true);
+        let now = cx.now();
+
+        let una = tx_una(&s);
+        let win = s.remote_win_len as i64;
+        let mss = s.remote_mss as i64;
+        let txlen = s.tx_buffer.len() as i64;
+        let st = s.state;
+        let zwp_due = s.timer.should_zero_window_probe(now);
+        let old_nxt_tx = s.remote_last_seq;
+        let fin_in_flight = fin_sent_state(st) && sdiff(s.remote_last_seq, una) == txlen + 1;
+        let nxt = rcv_nxt(&s);
+        let rxwin = s.rx_buffer.window();
+        let shift = s.remote_win_shift;
+        let will_rewind = matches!(s.timer, Timer::Retransmit { expires_at } if now >= expires_at);
+        dump_tx("pre", &s, now);
+        let emit_ok: bool = kani::any();
+        let r: Result<(), ()> = s.dispatch(&mut cx, |cx, (ip, repr)| {
+            dump_seg(&repr);
+            kani::cover!(!repr.payload.is_empty(), "a data segment can be emitted");
+            kani::cover!(repr.control == TcpControl::Fin, "a FIN can be emitted");
+            let plen = repr.payload.len() as i64;
+            let start = sdiff(repr.seq_number, una);
+            // a keep-alive carries one garbage byte at SND.NXT-1, i.e. at an already acknowledged sequence number
+            let keepalive = plen == 1 && start < 0;
+            for c in clauses { match *c {
+                TxClause::Data => if plen > 0 {
+                    if keepalive {
+                        assert!(start == -1 && sdiff(old_nxt_tx, una) == 0, "C05.data: keep-alive byte only at an acknowledged sequence number");
+                    } else {
+                        assert!(start >= 0 && start + plen <= txlen, "C05.data: payload lies inside the queued data");
+                        let o = sdiff(q, repr.seq_number);
+                        if o >= 0 && o < plen { assert!(repr.payload[o as usize] == b, "C05.data: payload bytes are the application's bytes for their sequence numbers"); }
+                    }
+                },
+                TxClause::Window => if plen > 0 && !keepalive {
+                    assert!(start + plen <= win || (plen == 1 && zwp_due && win == 0), "C05.window: segment inside the peer's window (1-byte zero-window probe excepted)");
+                },
+                TxClause::Mss => if plen > 0 {
+                    assert!(plen <= mss, "C05.mss: payload within the peer's MSS");
+                    assert!(ip.buffer_len() <= cx.ip_mtu(), "C05.mtu: packet within the local MTU");
+                },
+                TxClause::Order => if plen > 0 && !keepalive {
+                    // new data continues at SND.NXT; a retransmission restarts at SND.UNA
+                    assert!(repr.seq_number == old_nxt_tx || start == 0, "C05.order: data is sent contiguously from SND.NXT or retransmitted from SND.UNA");
+                    if will_rewind { assert!(start == 0, "C05.order: an RTO retransmits from SND.UNA"); }
+                },
+                TxClause::Fin => {
+                    if repr.control == TcpControl::Fin {
+                        assert!(fin_sent_state(st), "C05.fin: FIN only after close()");
+                        assert!(start + plen == txlen, "C05.fin: FIN only after all queued data");
+                    }
+                    if fin_in_flight && repr.control != TcpControl::Rst {
+                        assert!(start + repr.segment_len() as i64 <= txlen + 1, "C05.fin: nothing is sent beyond the FIN");
+                    }
+                    if !fin_sent_state(st) && st != State::FinWait2 && st != State::TimeWait { assert!(repr.control != TcpControl::Fin, "C05.fin: no FIN before close()"); }
+                },
+                TxClause::WinField => {
+                    if repr.control == TcpControl::Syn {
+                        assert!(repr.window_len as usize == rxwin.min(65535), "C05.syn_window: SYN carries the unscaled window");
+                    } else if repr.control != TcpControl::Rst {
+                        let adv = (repr.window_len as usize) << shift;
+                        assert!(adv <= rxwin, "C05.window_field: advertised window never exceeds the free receive space");
+                        assert!(repr.window_len == u16::MAX || rxwin - adv < (1usize << shift), "C05.window_field: advertised window is the free space scaled as negotiated");
+                    }
+                },
+                TxClause::AckNo => if repr.control != TcpControl::Rst && synchronized(st) {
+                    assert!(repr.ack_number == Some(nxt), "C04.ack: every emitted segment acknowledges exactly RCV.NXT");
+                },
+            } }
+            if emit_ok { Ok(()) } else { Err(()) }
+        });
+        let _ = r;
+        dump_tx("post", &s, now);
+    }
+    const C05A: &[TxClause] = &[TxClause::Data, TxClause::Order];
+    const C05B: &[TxClause] = &[TxClause::Window, TxClause::Mss];
+    const C05C: &[TxClause] = &[TxClause::Fin, TxClause::WinField];
+    #[kani::proof] #[kani::unwind(12)] fn c05_dispatch_data_order() { dispatch_step(C05A, true) }
+    #[kani::proof] #[kani::unwind(12)] fn c05_dispatch_window_mss() { dispatch_step(C05B, true) }
+    #[kani::proof] #[kani::unwind(12)] fn c05_dispatch_fin_winfield() { dispatch_step(C05C, true) }
+    #[kani::proof] #[kani::unwind(12)] fn c04_dispatch_ackno() { dispatch_step(&[TxClause::AckNo], false) }
+
+    /// C04/C05: dispatch preserves the receiver and sender invariants (for any outcome of emit)
+    #[kani::proof] #[kani::unwind(12)]
+    fn c04_dispatch_inv() {
+        let mut rx = [0u8; RXCAP];
+        let mut tx = [0u8; TXCAP];
+        if RXCAP <= 64 { let rxc: [u8; RXCAP] = kani::any(); rx.copy_from_slice(&rxc); }
+        let mut s = any_socket(&mut rx, &mut tx);
+        kani::assume(synchronized(s.state) && state_consistent(&s)); // tag: pre
+        let q = any_seq(); let b: u8 = kani::any();
+        let max_edge = any_seq(); let peer_end = any_seq();
+        kani::assume(j_rx(&mut s, q, b, max_edge, peer_end)); // tag: pre
+        kani::assume(j_tx(&s, any_seq(), 0)); // tag: pre
+        let mut cx = Context::kani_ctx(any_instant(), 1500, kani::any(), true);
+        let emit_ok: bool = kani::any();
+        let old_base = rx_base(&s); let old_len = s.rx_buffer.len();
+        let r: Result<(), ()> = s.dispatch(&mut cx, |_, _| if emit_ok { Ok(()) } else { Err(()) });
+        let _ = r;
+        if synchronized(s.state) {
+            kani::cover!(s.remote_last_ack.is_some(), "an ACK can have been sent");
+            let new_max = match adv_edge(&s) {
+                Some(e) => { let e = sadd(e, -(s.rx_fin_received as i64)); if sdiff(e, max_edge) > 0 { e } else { max_edge } }
+                None => max_edge,
+            };
+            assert!(rx_base(&s) == old_base && s.rx_buffer.len() == old_len, "C04.dispatch: egress never touches received data");
+            assert!(j_rx(&mut s, q, b, new_max, peer_end), "C04.dispatch: receiver invariant preserved by dispatch");
+        }
+    }
+
+    #[kani::proof] #[kani::unwind(12)]
+    fn c05_dispatch_inv() {
+        let mut rx = [0u8; RXCAP];
+        let mut tx = [0u8; TXCAP];
+        if TXCAP <= 64 { let txc: [u8; TXCAP] = kani::any(); tx.copy_from_slice(&txc); }
+        let q = any_seq(); let b: u8 = kani::any();
+        let (mut s, _me, _pe) = any_connected(&mut rx, &mut tx, q, b);
+        let mut cx = Context::kani_ctx(any_instant(), 1500, kani::any(), true);
+        let emit_ok: bool = kani::any();
+        let (una, len) = (tx_una(&s), s.tx_buffer.len());
+        let r: Result<(), ()> = s.dispatch(&mut cx, |_, _| if emit_ok { Ok(()) } else { Err(()) });
+        let _ = r;
+        if synchronized(s.state) {
+            kani::cover!(s.remote_last_seq != s.local_seq_no, "data in flight after dispatch");
+            assert!(tx_una(&s) == una && s.tx_buffer.len() == len, "C05.dispatch: egress never dequeues or re-bases queued data");
+            assert!(j_tx(&s, q, b), "C05.dispatch: sender invariant preserved by dispatch");
+        }
+    }
+
+    // =====================================================================================================
+    // C05/C01: ACK processing half of `process`, send_slice, MSS clamp
+    // =====================================================================================================
+    #[kani::proof] #[kani::unwind(12)]
+    fn c05_process_ack() {
+        let mut rx = [0u8; RXCAP];
+        let mut tx = [0u8; TXCAP];
+        if TXCAP <= 64 { let txc: [u8; TXCAP] = kani::any(); tx.copy_from_slice(&txc); }
+        let q = any_seq(); let b: u8 = kani::any();
+        let (mut s, _me, _pe) = any_connected(&mut rx, &mut tx, q, b);
+        let mut cx = Context::kani_ctx(any_instant(), 1500, kani::any(), true);
+        let pay: [u8; 2] = kani::any();
+        let plen: usize = kani::any();
+        kani::assume(plen <= 2); // tag: range
+        let repr = any_repr(&pay[..plen]);
+        let ip = ip_for(&repr);
+        let (una, len, st) = (tx_una(&s), s.tx_buffer.len() as i64, s.state);
+        let _ = s.process(&mut cx, &ip, &repr);
+        if synchronized(s.state) {
+            let adv = sdiff(tx_una(&s), una);
+            kani::cover!(adv > 0, "an ACK can release queued data");
+            assert!(adv >= 0 && adv <= len + (fin_sent_state(st) as i64), "C05.ack: SND.UNA only moves forward, never past the queued data (+FIN)");
+            assert!(len - s.tx_buffer.len() as i64 == adv.min(len), "C05.ack: exactly the acknowledged bytes are released");
+            assert!(j_tx(&s, q, b), "C05.ack: sender invariant preserved (remaining bytes keep their sequence numbers)");
+            if let Some(a) = repr.ack_number { if adv > 0 { assert!(tx_una(&s) == a, "C05.ack: SND.UNA becomes the acknowledgment number"); } }
+            assert!(s.remote_mss >= MIN_REMOTE_MSS, "C05.mss: peer MSS is clamped from below");
+        }
+    }
+
+    #[kani::proof] #[kani::unwind(12)]
+    fn c05_send_slice() {
+        let mut rx = [0u8; RXCAP];
+        let mut tx = [0u8; TXCAP];
+        if TXCAP <= 64 { let txc: [u8; TXCAP] = kani::any(); tx.copy_from_slice(&txc); }
+        let q = any_seq(); let b: u8 = kani::any();
+        let (mut s, _me, _pe) = any_connected(&mut rx, &mut tx, q, b);
+        let data: [u8; TXCAP + 1] = kani::any();
+        let n: usize = kani::any();
+        kani::assume(n <= TXCAP + 1); // tag: range
+        let (una, len, st) = (tx_una(&s), s.tx_buffer.len(), s.state);
+        let free = s.tx_buffer.window();
+        // ghost: the byte the application writes for sequence number q is b
+        let o = sdiff(q, sadd(una, len as i64));
+        if o >= 0 && (o as usize) < n { kani::assume(data[o as usize] == b); } // tag: ghost
+        let r = s.send_slice(&data[..n]);
+        assert!(s.state == st, "C17.api: send never changes the connection state");
+        match r {
+            Ok(k) => {
+                kani::cover!(k > 0, "bytes can be queued");
+                assert!(matches!(st, State::Established | State::CloseWait), "C05.send: data accepted only while the send half is open");
+                assert!(k == n.min(free), "C05.send: accepts exactly what fits");
+                assert!(s.tx_buffer.len() == len + k && tx_una(&s) == una, "C05.send: bytes appended at the end of the queue");
+                assert!(j_tx(&s, q, b), "C05.send: queued bytes keep their sequence numbers");
+            }
+            Err(_) => { assert!(s.tx_buffer.len() == len, "C05.send: refused send leaves the queue unchanged"); }
+        }
+    }
+
+    // =====================================================================================================
+    // C04/C01: recv_slice / recv / peek deliver exactly the head of the ring, once
+    // =====================================================================================================
+    fn recv_setup<'a>(rx: &'a mut [u8], tx: &'a mut [u8], q: TcpSeqNumber, b: u8) -> (Socket<'a>, TcpSeqNumber, TcpSeqNumber) {
+        let mut s = any_socket(rx, tx);
+        kani::assume(s.state != State::Listen && s.state != State::SynSent); // tag: pre
+        kani::assume(s.state == State::Closed || state_consistent(&s)); // tag: pre
+        let max_edge = any_seq(); let peer_end = any_seq();
+        kani::assume(j_rx(&mut s, q, b, max_edge, peer_end)); // tag: pre
+        (s, max_edge, peer_end)
+    }
+
+    #[kani::proof] #[kani::unwind(12)]
+    fn c04_recv_slice() {
+        let mut rx = [0u8; RXCAP]; let mut tx = [0u8; TXCAP];
+        if RXCAP <= 64 { let rxc: [u8; RXCAP] = kani::any(); rx.copy_from_slice(&rxc); }
+        let q = any_seq(); let b: u8 = kani::any();
+        let (mut s, max_edge, peer_end) = recv_setup(&mut rx, &mut tx, q, b);
+        let mut buf = [0u8; RXCAP + 1];
+        let n: usize = kani::any();
+        kani::assume(n <= RXCAP + 1); // tag: range
+        let (base, len, st, fin) = (rx_base(&s), s.rx_buffer.len(), s.state, s.rx_fin_received);
+        let r = s.recv_slice(&mut buf[..n]);
+        assert!(s.state == st, "C17.api: recv never changes the connection state");
+        match r {
+            Ok(k) => {
+                kani::cover!(k > 0, "bytes can be delivered");
+                assert!(k == n.min(len), "C04.recv: delivers the head of the queue, as much as fits");
+                assert!(sdiff(rx_base(&s), base) == k as i64 && s.rx_buffer.len() == len - k, "C04.recv: delivered bytes are removed exactly once");
+                let o = sdiff(q, base);
+                if o >= 0 && (o as usize) < k { assert!(buf[o as usize] == b, "C04.recv: delivered bytes are the peer's bytes in sequence order"); }
+                assert!(j_rx(&mut s, q, b, max_edge, peer_end), "C04.recv: receiver invariant preserved");
+            }
+            Err(RecvError::Finished) => {
+                assert!(fin && len == 0, "C04.finished: end of stream only after the FIN was consumed and every byte delivered");
+                assert!(sdiff(peer_end, sadd(base, len as i64)) == 0, "C04.finished: all bytes before the peer's FIN were delivered");
+            }
+            Err(RecvError::InvalidState) => { assert!(len == 0, "C04.recv: buffered data is never withheld"); }
+        }
+    }
+
+    #[kani::proof] #[kani::unwind(12)]
+    fn c04_recv_closure() {
+        let mut rx = [0u8; RXCAP]; let mut tx = [0u8; TXCAP];
+        if RXCAP <= 64 { let rxc: [u8; RXCAP] = kani::any(); rx.copy_from_slice(&rxc); }
+        let q = any_seq(); let b: u8 = kani::any();
+        let (mut s, max_edge, peer_end) = recv_setup(&mut rx, &mut tx, q, b);
+        let (base, len, fin) = (rx_base(&s), s.rx_buffer.len(), s.rx_fin_received);
+        let take: usize = kani::any();
+        let r = s.recv(|slice| {
+            kani::assume(take <= slice.len()); // tag: pre
+            let o = sdiff(q, base);
+            if o >= 0 && (o as usize) < slice.len() { assert!(slice[o as usize] == b, "C04.recv: the slice handed to the application is the head of the stream"); }
+            assert!(slice.len() <= len && (len == 0 || !slice.is_empty()), "C04.recv: slice is a non-empty prefix of the queue");
+            (take, ())
+        });
+        match r {
+            Ok(()) => {
+                kani::cover!(take > 0, "bytes can be consumed");
+                assert!(sdiff(rx_base(&s), base) == take as i64 && s.rx_buffer.len() == len - take, "C04.recv: consumed bytes are removed exactly once");
+                assert!(j_rx(&mut s, q, b, max_edge, peer_end), "C04.recv: receiver invariant preserved");
+            }
+            Err(RecvError::Finished) => assert!(fin && len == 0, "C04.finished: end of stream only after the FIN was consumed and every byte delivered"),
+            Err(RecvError::InvalidState) => assert!(len == 0, "C04.recv: buffered data is never withheld"),
+        }
+    }
+
+    #[kani::proof] #[kani::unwind(12)]
+    fn c04_peek() {
+        let mut rx = [0u8; RXCAP]; let mut tx = [0u8; TXCAP];
+        if RXCAP <= 64 { let rxc: [u8; RXCAP] = kani::any(); rx.copy_from_slice(&rxc); }
+        let q = any_seq(); let b: u8 = kani::any();
+        let (mut s, max_edge, peer_end) = recv_setup(&mut rx, &mut tx, q, b);
+        let (base, len) = (rx_base(&s), s.rx_buffer.len());
+        let n: usize = kani::any();
+        kani::assume(n <= RXCAP + 1); // tag: range
+        if kani::any() {
+            if let Ok(slice) = s.peek(n) {
+                kani::cover!(!slice.is_empty(), "peek can return data");
+                let o = sdiff(q, base);
+                assert!(slice.len() <= n.min(len));
+                if o >= 0 && (o as usize) < slice.len() { assert!(slice[o as usize] == b, "C04.peek: peeked bytes are the head of the stream"); }
+            }
+        } else {
+            let mut buf = [0u8; RXCAP + 1];
+            if let Ok(k) = s.peek_slice(&mut buf[..n]) {
+                let o = sdiff(q, base);
+                assert!(k == n.min(len));
+                if o >= 0 && (o as usize) < k { assert!(buf[o as usize] == b, "C04.peek: peeked bytes are the head of the stream"); }
+            }
+        }
+        assert!(rx_base(&s) == base && s.rx_buffer.len() == len, "C04.peek: peeking consumes nothing");
+        assert!(j_rx(&mut s, q, b, max_edge, peer_end), "C04.peek: receiver invariant preserved");
+    }
+
+    // =====================================================================================================
+    // C17 / C01(iii): LISTEN and SYN-SENT; dispatch; API calls
+    // =====================================================================================================
+    fn fresh_open_socket<'a>(rx: &'a mut [u8], tx: &'a mut [u8]) -> Socket<'a> {
+        // the state left by listen() / connect(): reset() has emptied everything
+        let mut s = any_socket(rx, tx);
+        kani::assume(matches!(s.state, State::Listen | State::SynSent)); // tag: pre
+        kani::assume(s.rx_buffer.is_empty() && s.tx_buffer.is_empty() && s.assembler.is_empty() && !s.rx_fin_received); // tag: pre
+        kani::assume(s.remote_last_ack.is_none() && s.remote_last_win == 0); // tag: pre
+        if s.state == State::Listen {
+            s.tuple = None;
+            s.listen_endpoint = IpListenEndpoint { addr: if kani::any() { Some(LOCAL) } else { None }, port: 80 };
+        } else {
+            let fl = sdiff(s.remote_last_seq, s.local_seq_no);
+            kani::assume(fl == 0 || fl == 1); // tag: pre
+        }
+        s
+    }
+
+    #[kani::proof] #[kani::unwind(12)]
+    fn c17_process_open() {
+        let mut rx = [0u8; RXCAP]; let mut tx = [0u8; TXCAP];
+        let mut s = fresh_open_socket(&mut rx, &mut tx);
+        let mut cx = Context::kani_ctx(any_instant(), 1500, kani::any(), true);
+        let pay: [u8; 4] = kani::any();
+        let plen: usize = kani::any();
+        kani::assume(plen <= 4); // tag: range
+        let repr = any_repr(&pay[..plen]);
+        let ip = ip_for(&repr);
+        kani::assume(s.accepts(&mut cx, &ip, &repr)); // tag: pre   (process_tcp only calls process on sockets that accept the segment)
+        let (a, iss) = (s.state, s.local_seq_no);
+        let _ = s.process(&mut cx, &ip, &repr);
+        let b2 = s.state;
+        kani::cover!(b2 == State::SynReceived, "LISTEN/SYN-SENT -> SYN-RECEIVED reachable");
+        kani::cover!(b2 == State::Established, "SYN-SENT -> ESTABLISHED reachable");
+        let syn = repr.control == TcpControl::Syn;
+        let ack_iss = repr.ack_number == Some(sadd(iss, 1));
+        let ok = a == b2 || match (a, b2) {
+            (State::Listen, State::SynReceived) => syn && repr.ack_number.is_none(),
+            (State::SynSent, State::Established) => syn && ack_iss,
+            (State::SynSent, State::SynReceived) => syn && repr.ack_number.is_none(),
+            (State::SynSent, State::Closed) => repr.control == TcpControl::Rst && ack_iss,
+            _ => false,
+        };
+        assert!(ok, "C17.edges: LISTEN/SYN-SENT leave only by the handshake segment the RFC prescribes");
+        if a != b2 && b2 != State::Closed {
+            // C01(iii) origin agreement: the receive sequence space starts right after the peer's SYN, nothing buffered yet
+            assert!(s.remote_seq_no == sadd(repr.seq_number, 1) && s.rx_buffer.is_empty() && s.assembler.is_empty() && !s.rx_fin_received, "C01.origin: stream origin is the peer's ISN + 1");
+            let q = any_seq(); let b: u8 = kani::any();
+            let nxt = rcv_nxt(&s);
+            let pe = any_seq();
+            kani::assume(sdiff(pe, nxt) >= 0 && sdiff(pe, nxt) < (1 << 30)); // tag: ghost
+            assert!(j_rx(&mut s, q, b, nxt, pe), "C04.inv: receiver invariant established by the handshake");
+            assert!(j_tx(&s, q, b), "C05.inv: sender invariant established by the handshake");
+            assert!(s.remote_mss >= MIN_REMOTE_MSS, "C05.mss: peer MSS is clamped from below");
+        }
+    }
+
+    /// dispatch changes the state only by timeout (-> CLOSED) and by TIME-WAIT expiry (-> CLOSED) ; C01(iii): the SYN carries seq = ISS
+    #[kani::proof] #[kani::unwind(12)]
+    fn c17_dispatch_edges() {
+        let mut rx = [0u8; RXCAP]; let mut tx = [0u8; TXCAP];
+        let mut s = any_socket(&mut rx, &mut tx);
+        kani::assume(s.state != State::Listen); // tag: pre  (a listener has no tuple)
+        let q = any_seq();
+        if synchronized(s.state) {
+            kani::assume(state_consistent(&s)); // tag: pre
+            let (me, pe) = (any_seq(), any_seq());
+            kani::assume(j_rx(&mut s, any_seq(), 0, me, pe)); // tag: pre
+        } else {
+            kani::assume(s.rx_buffer.is_empty() && s.assembler.is_empty()); // tag: pre
+        }
+        kani::assume(j_tx(&s, q, 0)); // tag: pre
+        let mut cx = Context::kani_ctx(any_instant(), 1500, kani::any(), true);
+        let now = cx.now();
+        let a = s.state;
+        let timed_out = match (s.remote_last_ts.or(Some(now)), s.timeout) { (Some(ts), Some(to)) => now >= ts + to, _ => false };
+        let tw_expired = a == State::TimeWait && matches!(s.timer, Timer::Close { expires_at } if now >= expires_at);
+        let iss = s.local_seq_no;
+        let emit_ok: bool = kani::any();
+        let r: Result<(), ()> = s.dispatch(&mut cx, |_, (_, repr)| {
+            if repr.control == TcpControl::Syn { assert!(repr.seq_number == iss, "C01.origin: the SYN carries the initial sequence number"); }
+            if a == State::Closed { assert!(repr.control == TcpControl::Rst, "C17.abort: an aborted socket only emits a reset"); }
+            if emit_ok { Ok(()) } else { Err(()) }
+        });
+        let _ = r;
+        kani::cover!(a == State::TimeWait && s.state == State::Closed, "TIME-WAIT can expire");
+        let ok = s.state == a || (s.state == State::Closed && (timed_out || tw_expired));
+        assert!(ok, "C17.dispatch: egress changes the state only by user timeout or TIME-WAIT expiry (10 s after entry)");
+        if a == State::TimeWait && !timed_out { assert!((s.state == State::Closed) == tw_expired, "C17.timewait: TIME-WAIT ends by itself exactly when its timer expires"); }
+    }
+
+    #[kani::proof] #[kani::unwind(12)]
+    fn c17_api_close_abort() {
+        let mut rx = [0u8; RXCAP]; let mut tx = [0u8; TXCAP];
+        let mut s = any_socket(&mut rx, &mut tx);
+        let a = s.state;
+        if kani::any() {
+            s.close();
+            let want = match a {
+                State::Listen | State::SynSent => State::Closed,
+                State::SynReceived | State::Established => State::FinWait1,
+                State::CloseWait => State::LastAck,
+                x => x,
+            };
+            assert!(s.state == want, "C17.close: close() follows the state diagram");
+        } else {
+            s.abort();
+            assert!(s.state == State::Closed, "C17.abort: abort() goes to CLOSED");
+        }
+    }
+
+    /// close() keeps the sender invariant: in particular FIN-WAIT-1 is only entered with the SYN acknowledged,
+    /// otherwise the ACK of the SYN is later taken for the ACK of a FIN that was never sent
+    fn close_inv(exclude_known: bool) {
+        let mut rx = [0u8; RXCAP]; let mut tx = [0u8; TXCAP];
+        let mut s = any_socket(&mut rx, &mut tx);
+        kani::assume(synchronized(s.state)); // tag: pre
+        let q = any_seq(); let b: u8 = kani::any();
+        kani::assume(j_tx(&s, q, b)); // tag: pre
+        if exclude_known { kani::assume(s.state != State::SynReceived); } // tag: known-finding-F15
+        let fin_unsent = !fin_sent_state(s.state);
+        let una = tx_una(&s);
+        s.close();
+        kani::cover!(s.state == State::FinWait1, "close() can enter FIN-WAIT-1");
+        assert!(j_tx(&s, q, b), "C17.close: sender invariant preserved");
+        assert!(tx_una(&s) == una, "C17.close: close() does not re-base the queued data (SYN must be acknowledged before FIN-WAIT-1)");
+        let _ = fin_unsent;
+    }
+    #[kani::proof] #[kani::unwind(12)] fn c17_close_inv() { close_inv(false) }
+    #[kani::proof] #[kani::unwind(12)] fn c17_close_inv_xk() { close_inv(true) }
+
+    #[kani::proof] #[kani::unwind(12)]
+    fn c17_api_listen_connect() {
+        let mut rx = [0u8; RXCAP]; let mut tx = [0u8; TXCAP];
+        let mut s = any_socket(&mut rx, &mut tx);
+        if !synchronized(s.state) && s.state != State::SynSent { s.tuple = None; }
+        let a = s.state;
+        let old_ep = s.listen_endpoint;
+        let mut cx = Context::kani_ctx(any_instant(), 1500, kani::any(), true);
+        if kani::any() {
+            let port: u16 = kani::any();
+            let ep = IpListenEndpoint { addr: None, port };
+            match s.listen(ep) {
+                Ok(()) => {
+                    kani::cover!(a == State::Closed, "listen from CLOSED");
+                    assert!(port != 0);
+                    assert!(s.state == State::Listen && (matches!(a, State::Closed | State::TimeWait) || (a == State::Listen && old_ep == ep)), "C17.listen: LISTEN is entered only from CLOSED/TIME-WAIT");
+                    assert!(s.tuple.is_none() && s.rx_buffer.is_empty() && s.tx_buffer.is_empty());
+                }
+                Err(_) => assert!(s.state == a, "C17.listen: a refused listen changes nothing"),
+            }
+        } else {
+            let rport: u16 = kani::any(); let lport: u16 = kani::any();
+            let iss_probe = s.local_seq_no;
+            match s.connect(&mut cx, IpEndpoint::new(REMOTE, rport), IpListenEndpoint { addr: Some(LOCAL), port: lport }) {
+                Ok(()) => {
+                    kani::cover!(true, "connect can succeed");
+                    assert!(rport != 0 && lport != 0);
+                    assert!(s.state == State::SynSent && matches!(a, State::Closed | State::TimeWait), "C17.connect: SYN-SENT is entered only from CLOSED/TIME-WAIT");
+                    assert!(s.remote_last_seq == s.local_seq_no && s.rx_buffer.is_empty() && s.tx_buffer.is_empty() && s.assembler.is_empty() && !s.rx_fin_received && s.remote_last_ack.is_none());
+                    let _ = iss_probe;
+                }
+                Err(_) => assert!(s.state == a, "C17.connect: a refused connect changes nothing"),
+            }
+        }
+    }
+
+    // =====================================================================================================
+    // C13 (TCP part): poll_at is sufficient and non-spinning; C02: finite deadline while sequence space is unacknowledged
+    // =====================================================================================================
+    fn c13_setup<'a>(rx: &'a mut [u8], tx: &'a mut [u8]) -> (Socket<'a>, Context) {
+        let (mut s, _me, _pe) = any_connected(rx, tx, any_seq(), 0);
+        if kani::any() { s.state = State::Closed; }          // an aborted socket still owes a reset
+        let cx = Context::kani_ctx(any_instant(), 1500, kani::any(), true);
+        (s, cx)
+    }
+
+    /// (a) sleeping until poll_at loses nothing: if poll_at says "later" (or never), dispatch now emits nothing
+    #[kani::proof] #[kani::unwind(12)]
+    fn c13_tcp_sufficient() {
+        let mut rx = [0u8; RXCAP]; let mut tx = [0u8; TXCAP];
+        let (mut s, mut cx) = c13_setup(&mut rx, &mut tx);
+        let now = cx.now();
+        let p = s.poll_at(&mut cx);
+        let later = match p { PollAt::Now => false, PollAt::Time(t) => t > now, PollAt::Ingress => true };
+        kani::assume(later); // tag: pre
+        kani::cover!(true, "a later deadline is possible");
+        dump_tx("pre", &s, now);
+        let st = s.state;
+        let r: Result<(), ()> = s.dispatch(&mut cx, |_, (_, repr)| { dump_seg(&repr); assert!(false, "C13.sufficient: nothing is due before poll_at"); Ok(()) });
+        let _ = r;
+        assert!(s.state == st, "C13.sufficient: no timer-driven state change before poll_at");
+    }
+
+    /// (b) no spinning: after a dispatch that emitted nothing, the next deadline is strictly later than now (or absent)
+    #[kani::proof] #[kani::unwind(12)]
+    fn c13_tcp_nonspinning() {
+        let mut rx = [0u8; RXCAP]; let mut tx = [0u8; TXCAP];
+        let (mut s, mut cx) = c13_setup(&mut rx, &mut tx);
+        let now = cx.now();
+        dump_tx("pre", &s, now);
+        let mut emitted = false;
+        let r: Result<(), ()> = s.dispatch(&mut cx, |_, _| { emitted = true; Ok(()) });
+        let _ = r;
+        if !emitted && s.tuple.is_some() {
+            kani::cover!(true, "a silent dispatch is possible");
+            dump_tx("post", &s, now);
+            match s.poll_at(&mut cx) {
+                PollAt::Now => assert!(false, "C13.nonspinning: poll_at = Now right after a silent dispatch"),
+                PollAt::Time(t) => assert!(t > now, "C13.nonspinning: deadline not in the future after a silent dispatch"),
+                PollAt::Ingress => {}
+            }
+        }
+    }
+
+    fn unacked(s: &Socket) -> bool {
+        s.tuple.is_some() && (synchronized(s.state) || s.state == State::SynSent) && s.state != State::TimeWait
+            && (!s.tx_buffer.is_empty() || fin_sent_state(s.state) || syn_state(s.state) || s.remote_last_seq != s.local_seq_no)
+    }
+
+    /// C02 (T' => T): under the timer invariant, unacknowledged SYN/data/FIN always has a finite poll deadline
+    #[kani::proof] #[kani::unwind(12)]
+    fn c02_deadline_from_timer_inv() {
+        let mut rx = [0u8; RXCAP]; let mut tx = [0u8; TXCAP];
+        let (mut s, _me, _pe) = any_connected(&mut rx, &mut tx, any_seq(), 0);
+        kani::assume(t_prime(&s) && zwp_inv(&s)); // tag: pre
+        let mut cx = Context::kani_ctx(any_instant(), 1500, kani::any(), true);
+        kani::assume(unacked(&s)); // tag: pre
+        kani::cover!(s.remote_win_len == 0, "zero window state reachable");
+        assert!(!matches!(s.poll_at(&mut cx), PollAt::Ingress), "C02.deadline: unacknowledged SYN/data/FIN implies a finite poll deadline");
+    }
+    /// queued data that cannot be sent because the peer's window is closed is covered by the zero-window-probe timer
+    fn zwp_inv(s: &Socket) -> bool {
+        let in_flight = s.remote_last_seq != s.local_seq_no;
+        !(synchronized(s.state) && s.remote_win_len == 0 && !s.tx_buffer.is_empty() && !in_flight) || !s.timer.is_idle() || s.remote_last_ts.is_none()
+    }
+
+    /// C02: dispatch preserves T' (for any outcome of emit)
+    fn c02_dispatch_keeps(exclude_known: bool) {
+        let mut rx = [0u8; RXCAP]; let mut tx = [0u8; TXCAP];
+        let (mut s, _me, _pe) = any_connected(&mut rx, &mut tx, any_seq(), 0);
+        kani::assume(t_prime(&s) && zwp_inv(&s)); // tag: pre
+        let mut cx = Context::kani_ctx(any_instant(), 1500, kani::any(), true);
+        let now = cx.now();
+        let emit_ok: bool = kani::any();
+        if exclude_known {
+            // F14: fast retransmit with nothing but a FIN (or nothing retransmittable) outstanding ; F16: emit refused by the device during a fast retransmit
+            kani::assume(!(matches!(s.timer, Timer::FastRetransmit) || s.pending_fast_retransmit)); // tag: known-finding-F14-F16
+        }
+        dump_tx("pre", &s, now);
+        let r: Result<(), ()> = s.dispatch(&mut cx, |_, (_, repr)| { dump_seg(&repr); if emit_ok { Ok(()) } else { Err(()) } });
+        let _ = r;
+        dump_tx("post", &s, now);
+        kani::cover!(unacked(&s), "post-state with unacknowledged data reachable");
+        assert!(t_prime(&s), "C02.timer: sequence space in flight keeps a running timer after dispatch");
+        assert!(zwp_inv(&s), "C02.zwp: data blocked by a closed window keeps a probe timer after dispatch");
+    }
+    #[kani::proof] #[kani::unwind(12)] fn c02_dispatch_keeps_timer() { c02_dispatch_keeps(false) }
+    #[kani::proof] #[kani::unwind(12)] fn c02_dispatch_keeps_timer_xk() { c02_dispatch_keeps(true) }
+
+    /// C02: process preserves T'
+    fn c02_process_keeps(part: u8) {
+        let mut rx = [0u8; RXCAP]; let mut tx = [0u8; TXCAP];
+        let (mut s, _me, _pe) = any_connected(&mut rx, &mut tx, any_seq(), 0);
+        kani::assume(t_prime(&s) && zwp_inv(&s)); // tag: pre
+        let mut cx = Context::kani_ctx(any_instant(), 1500, kani::any(), true);
+        let pay: [u8; 2] = kani::any();
+        let plen: usize = kani::any();
+        kani::assume(plen <= 2); // tag: range
+        let repr = any_repr(&pay[..plen]);
+        kani::assume((repr.ack_number == s.local_rx_last_ack) == (part == 0)); // tag: case-split
+        let ip = ip_for(&repr);
+        let _ = s.process(&mut cx, &ip, &repr);
+        kani::cover!(unacked(&s), "post-state with unacknowledged data reachable");
+        if s.tuple.is_some() {
+            assert!(t_prime(&s), "C02.timer: sequence space in flight keeps a running timer after process");
+            assert!(zwp_inv(&s), "C02.zwp: data blocked by a closed window keeps a probe timer after process");
+        }
+    }
+    #[kani::proof] #[kani::unwind(12)] fn c02_process_keeps_timer_p0() { c02_process_keeps(0) }
+    #[kani::proof] #[kani::unwind(12)] fn c02_process_keeps_timer_p1() { c02_process_keeps(1) }
+
+    /// C02: send_slice and close preserve T' / the zero-window-probe clause
+    #[kani::proof] #[kani::unwind(12)]
+    fn c02_api_keeps_timer() {
+        let mut rx = [0u8; RXCAP]; let mut tx = [0u8; TXCAP];
+        let (mut s, _me, _pe) = any_connected(&mut rx, &mut tx, any_seq(), 0);
+        kani::assume(t_prime(&s) && zwp_inv(&s)); // tag: pre
+        if kani::any() {
+            let data: [u8; 2] = kani::any();
+            let _ = s.send_slice(&data);
+        } else {
+            s.close();
+        }
+        assert!(t_prime(&s) && zwp_inv(&s), "C02.api: send/close keep the timer invariants");
+    }
 }
